@@ -40,8 +40,19 @@ PARTIAL = ['C02_parse_unparse_partial / C02_items_simulation_partial / C02_white
            'written as one token: a character, a control sequence (its own arguments are not parsed), a specials sequence, '
            '(e6) a comment that ends with the input, a paragraph break followed by indentation, (e7) verbatim: \\verb<c>text<c> and '
            'the verbatim environments (verbatim; lstlisting with its optional argument written or absent), the verbatim argument '
-           'kind of custom signatures. '
-           'NOT covered by any theorem (only by the differential correspondence and the structure oracle): ' + """a delimited argument written directly (not inside braces) in the body of another delimited argument, a whitespace run with two or more newlines in a context without the paragraph specials (a character token there), a paragraph break as the single-token argument of a macro"""]
+           'kind of custom signatures.',
+           'C02_parse_unparse3_partial / C02_parse_unparse3_modes_partial (strict AND tolerant mode) / C02_items_simulation3_partial: '
+           'the same for the THIRD grammar of coq/Doc/DocGrammar3.v = the extended grammar (C02_extended_grammar_embeds: up2_doc keeps '
+           'the side conditions - the two predicates are equal -, the written form and the meaning, so these theorems subsume the '
+           'ones above) plus (b) WPar3: a whitespace run with two or more newlines (ending with its last newline, possibly followed by '
+           'indentation) in a context WITHOUT the paragraph specials - one character token, pending characters like text -, anywhere '
+           'an item may stand (top level, groups, math, environment bodies, delimited arguments); (c) PArg3: a paragraph break as the '
+           'single-token argument of a mandatory slot of a macro / environment / specials call - the \\n\\n specials node without '
+           'arguments where the context has these specials (whatever their signature; whitespace in front always allowed), a '
+           'characters node in a context without them (whitespace in front only where the slot allows it); (a\') BGrp3: a delimited '
+           'group [..] written DIRECTLY in the body of a delimited argument with the same delimiter pair (\\item[see [1, [2]]]), whose '
+           'body is made of text (the two delimiters excluded), comments and nested groups of the same kind, to any depth. '
+           'NOT covered by any theorem (only by the differential correspondence and the structure oracle): ' + """inside a delimited group written directly in the body of a delimited argument: macro calls, environments, math, braced groups, specials and paragraph breaks (all children of such a group are read in the extended parsing state, which is not a state of the grammar); a whitespace run with two or more newlines in a context whose paragraph specials takes arguments"""]
 REFUTED = []
 CASE_TIMEOUT = 10.0
 case_from_desc = None
